@@ -43,7 +43,7 @@ BOUNDS = {
 }
 MACRO_NUCS = ["U235", "FE56", "NA23"]
 MISSING_NUC = "PU239"  # a real nuclide that none of the libraries holds under the probed suffixes
-NUC_LABEL = {"U235": "U235", "FE56": "FE56", "NA23": "NA23", "PU239": "PU39", "DUMP1": "DMP1", "U238": "U238", "FE54": "FE54", "CR52": "CR52", "NI58": "NI58", "MN55": "MN55"}
+NUC_LABEL = {"U235": "U235", "FE56": "FE56", "NA23": "NA23", "PU239": "PU39", "DUMP1": "DMP1", "U238": "U238", "FE54": "FE54", "CR52": "CR52", "NI58": "NI58", "MN55": "MN55", "BA138": "BA38"}
 FIX_MACRO_ORDER = ["ISOAA", "gamAA", "pmxAA", "ISOAB", "gamAB", "pmxAB"]
 LIN_COEFFS = [[1.0, 1.0], [2.0, 3.0]]
 
@@ -851,6 +851,15 @@ def macro_cases(ctx):
             coeffs = LIN_COEFFS if (lib != "fix" or not ctx.quick) else LIN_COEFFS[1:]  # 33-group fixture: one coefficient pair in quick
             out.append({"part": "lin", "lib": lib, "suffix": "AA", "combos": [[c1, c2, co] for c2 in lin for co in coeffs], "additive": [c1]})
         out.append({"part": "tsm", "lib": lib})
+    # multi-XS-ID library whose XS IDs collide with the letters of nuclide labels held under other XS IDs:
+    # per XS ID every composition over the nuclides held under THAT ID (densities 0 / 1e-3 / 2e-3)
+    inv = {v: k for k, v in NUC_LABEL.items()}
+    for suffix in L.COLLIDE_SUFFIXES:
+        names = [inv[lab[:-2]] for lab in L.COLLIDE_LABELS if lab.endswith(suffix)]
+        comps = list(_grid(names, [0.0, 1e-3, 2e-3]))
+        out.append({"part": "macro", "lib": "col2", "suffix": suffix, "comps": comps})
+        out.append({"part": "lin", "lib": "col2", "suffix": suffix, "combos": [[{a: 1e-3}, {b: 2e-3}, LIN_COEFFS[1]] for a in names for b in names], "additive": comps[-1:]})
+    out.append({"part": "tsm", "lib": "col2"})
     # presence patterns: 8 nuclides, one per subset of {elastic, inelastic, n2n} scatter blocks (neutron
     # and, mirrored, gamma) and with differing optional reactions: every single nuclide, every pair, all
     for lib in bd["pattern_libs"]:
@@ -887,7 +896,7 @@ def _spread(cases, heavy):
 def run(ctx):
     bd = BOUNDS[ctx.tier]
     # 0. harness sanity: generated members are exactly what the real readers produce
-    rt = core.pmap(MOD, "_dispatch", [{"part": "roundtrip", "name": n} for n in [s["name"] for s in L.GEN_POOL] + ["p2iso", "p2gam"]])
+    rt = core.pmap(MOD, "_dispatch", [{"part": "roundtrip", "name": n} for n in [s["name"] for s in L.GEN_POOL] + ["p2iso", "p2gam", "c2iso", "c2gam"]])
     ctx.count("generated_members_roundtrip_exact", sum(1 for r in rt if r["ok"]))
     ctx.count("generated_members_roundtrip_checked", sum(1 for r in rt if r["ok"] is not None))
     if any(r["ok"] is False for r in rt):
